@@ -133,6 +133,34 @@ def fe_scenarios(ctx, prefix="c01"):
     return [one("%s-fe%03d" % (prefix, i + 1), rnd, h + ["ok"], not ctx.quick and i % 7 == 0, fe=True) for i, h in enumerate(hist)]
 
 
+def slow_teardown(sid, fe=False):
+    """the runtime exits during invocation 1 while an extension subscribed to SHUTDOWN takes 300 ms to leave: the failure is
+    answered when the environment has been torn down, and the next event - posted right after that answer - makes its
+    round trip through freshly started processes"""
+    subs = {"e1": ["INVOKE", "SHUTDOWN"]}
+    s = Scn(sid, ext=["e1"], timeout_ms=3000, opWaitMs=9000, frontEnd=fe, onTerm={"e1": "ignore"})
+    s.meta(family="frontend" if fe else "roundtrip", kind="slow-teardown")
+    if fe:
+        it = s.invoke(size=6, seed=41)
+        s.await_exec(base="e1")
+        s.register("ext:e1", subs["e1"])
+        s.await_exec(kind="rt")
+        tags = {"ext:e1": s.poll("ext:e1"), "rt": s.poll("rt")}
+    else:
+        tags = s.boot(subs)
+        it = s.invoke(size=6, seed=41)
+    s.wait(tags["rt"])
+    s.wait(tags["ext:e1"])
+    te = s.poll("ext:e1")
+    s.exit("rt", code=1)
+    s.wait(te)                  # SHUTDOWN
+    s.sleep(300)
+    s.exit("ext:e1", code=0)
+    s.wait(it)
+    s.recover(subs)
+    return s.done()
+
+
 def fe_stalled(sid, size, second):
     """the connection of caller 1 stalls when the front end writes the answer (the peer is not reading); meanwhile
     caller 2 is served in full (the emulator is free again as soon as invocation 1 is over); when caller 1's
@@ -195,10 +223,10 @@ def run(ctx):
     # E1: the property predicates as invariants of the composite (spec/MC_Rapid.tla)
     mcrapid.check(ctx, ['OkHasBody', 'StreamOwnerIsReserver', 'NoGhostInvoke'])
     ctx.assumptions += sc.ASSUME
-    sc.run_families(ctx, scenarios(ctx), "roundtrip")
+    sc.run_families(ctx, scenarios(ctx) + [slow_teardown("c01-slowtd")], "roundtrip")
     # the same histories through the real HTTP front end (cmd/aws-lambda-rie InvokeHandler), validated against
     # Trace_Rapid (core events) and Trace_FrontEnd (the handler's own steps and its status mapping)
-    sc.run_families(ctx, fe_scenarios(ctx) + fe_stalled_scenarios(ctx), "frontend")
+    sc.run_families(ctx, fe_scenarios(ctx) + fe_stalled_scenarios(ctx) + [slow_teardown("c01-fe-slowtd", fe=True)], "frontend")
     ctx.coverage["exhaustive"] = False
 
 
